@@ -77,6 +77,13 @@ func (n *verifNet) doQuery(ctx context.Context, addr krpc.NodeAddr) (res QueryRe
 	} else {
 		n.asked[i]++
 		n.ctxs = append(n.ctxs, ctx)
+		// checked at the moment of the query, so that a lookup that re-queries forever is a violation
+		// and not an exhausted exploration bound
+		verifAssert(n.asked[i] <= 1, "C04: no address is queried more than once, however often and under however many IDs it is reported")
+		verifAssert(!n.filtered[i], "C04: an address rejected by the node filter is never queried")
+		if n.asked[i] > 1 {
+			verifStopPath()
+		}
 	}
 	verifYield() // the reply is in flight: any other goroutine may run first
 	n.inflight--
@@ -303,5 +310,57 @@ func VerifTrav_MustFail() {
 func VerifTrav_SeedRace() {
 	n := verifNewNet(verifTarget, 1)
 	n.run(1, 2, []int{0}, false)
+	verifReach("end")
+}
+
+// Two nodes in a chain (the seed lists the second one), Alpha 1: with one preemption anywhere, the
+// lookup still ends with both nodes queried and both in the result.
+func VerifTrav_Chain2() {
+	n := verifNewNet(verifTarget, 2)
+	n.nodes[0].neighbours = []int{1}
+	n.nodes[1].neighbours = []int{0}
+	n.run(1, 2, []int{0}, true)
+	verifReach("end")
+}
+
+// A contact whose IPv4 address arrives in 16-byte (v4-mapped) form, listed again after it has been
+// queried (by itself and by its neighbour): asked once, and the lookup terminates.
+func VerifTrav_MappedRelisted() {
+	n := verifNewNet(verifTarget, 2)
+	n.nodes[1].addr = krpc.NodeAddr{IP: net.IPv4(10, 9, 0, 2), Port: 7001} // 16-byte form
+	n.nodes[0].neighbours = []int{1}
+	n.nodes[1].neighbours = []int{1, 0}
+	n.nodes[1].aliases = []krpc.NodeInfo{{ID: verifID(verifTarget, 0x31), Addr: n.nodes[1].addr}}
+	n.run(verifChoice(1, 2), 2, []int{0}, false)
+	verifReach("end")
+}
+
+// Stop at an arbitrary moment (before, during or after the queries): Stopped fires once the in-flight
+// queries have returned, every query context is cancelled, nothing is left blocked (engine verdict).
+func VerifTrav_StopAnytime() {
+	n := verifNewNet(verifTarget, 3)
+	n.nodes[0].neighbours = []int{1, 2}
+	n.nodes[1].neighbours = []int{2}
+	alpha := verifChoice(1, 2)
+	op := Start(OperationInput{Target: n.target, Alpha: alpha, K: 2, DoQuery: n.doQuery, NodeFilter: n.nodeFilter})
+	n.seed(op, 0, true)
+	for i := verifChoice(0, 3); i > 0; i-- {
+		verifYield()
+	}
+	op.Stop()
+	if verifNondetBool() {
+		op.Stop() // stopping twice is harmless
+	}
+	<-op.Stopped()
+	verifAssert(n.inflight == 0, "C03: Stopped fires only once the in-flight queries have returned")
+	n.checkDiscipline(alpha)
+	for _, c := range n.ctxs {
+		verifAssert(c.Err() != nil, "C04: every query still in flight when the lookup is stopped has its context cancelled")
+	}
+	// late AddNodes after Stop must not start anything
+	asked := n.asked[2]
+	n.seed(op, 2, true)
+	verifQuiesce()
+	verifAssert(n.asked[2] == asked, "C03: nothing is queried after the lookup has stopped")
 	verifReach("end")
 }
